@@ -321,7 +321,7 @@ func VString(v *ast.Value) string { panic("ghost") }
 //@ end
 
 //@ func mergeTypes
-//@ props C03 C05
+//@ props C03 C05 C04
 //@ returns result, err
 //@ requires wfDefs(a) && wfDefs(b) && as != nil && bs != nil
 //@ ensures[values] err == nil ==> result != nil && wfDefs(result)
@@ -329,6 +329,9 @@ func VString(v *ast.Value) string { panic("ghost") }
 //@ ensures[keys-b] err == nil ==> forallT(k, string, has(b, k) && !hasprefix(k, "__") ==> has(result, k)) @props C03
 //@ ensures[keys-only] err == nil ==> forallT(k, string, has(result, k) ==> has(a, k) || (has(b, k) && !hasprefix(k, "__"))) @props C03
 //@ ensures[kind-clash-rejected] err == nil ==> forallT(k, string, has(a, k) && has(b, k) && !hasprefix(k, "__") && b[k].Name != "Node" ==> a[k].Kind == b[k].Kind) @props C05
+// C04/C05: a root type shared by two services is merged by mergeRootObjects, which rejects a root field declared
+// twice; the merge of shared value types (complete copies allowed) must never be applied to Query, Mutation or Subscription
+//@ callsite mergeCustomObjects requires[roots-are-not-value-types] k != "Query" && k != "Mutation" && k != "Subscription" @props C04 C05
 //@ modifies-assumed fresh
 //@ loop 0 modifies result[*], fresh
 //@ loop 1 modifies result[*], fresh, elems(string), elems(*ast.FieldDefinition)
